@@ -128,6 +128,11 @@ fn mutations(ctx: &mut Ctx, b: &Built, i: u64, proof: &[B32], budget: usize) {
     let mut c = base("add-front"); c.5.insert(0, extra); cases.push(c);
     let mut c = base("add-back"); c.5.push(extra); cases.push(c);
     let mut c = base("add-back-own-root"); c.5.push(root); cases.push(c);
+    // over-long proofs whose extra elements are consistent with a naive fold (only the length rule rejects them)
+    let mut c = base("extend-left-sibling-and-root"); c.5.push(extra); c.1 = r::node_hash(&extra, &root); cases.push(c);
+    { let e2 = ctx.rng.arr32(); let mut c = base("extend-two-left-siblings-and-root"); c.5.push(extra); c.5.push(e2); c.1 = r::node_hash(&e2, &r::node_hash(&extra, &root)); cases.push(c); }
+    // a proof cut to its first element(s) with the root of the smaller subtree it does prove
+    if l > 1 { let mut c = base("truncate-to-subtree-root"); c.5.truncate(1); let lh = r::leaf_hash(&data); c.1 = if i % 2 == 0 { r::node_hash(&lh, &proof[0]) } else { r::node_hash(&proof[0], &lh) }; cases.push(c); }
     if i > 0 { let mut c = base("index-1"); c.3 = i - 1; cases.push(c); }
     let mut c = base("index+1"); c.3 = i + 1; cases.push(c);
     let mut c = base("index=n"); c.3 = n; cases.push(c);
